@@ -8,6 +8,7 @@ e  step-control arithmetic: error scale, clamps, endpoint adjustment, reject fac
 
 c-driver  the drivers apply the kernels faithfully on every grid (driver protocol of C10.d, re-filed); tolerances reach _error_scale in their own slots
 e (added)  the accept test's error norm carries the factor h exactly once (kernel estimate is already h*sum e_i k_i)
+c-propagate (round 4)  C10's propagation rules re-filed (the requested span is integrated however short it is compared with |t|)
 """
 from __future__ import annotations
 
@@ -172,6 +173,9 @@ def run(tier):
     c10._a_propagate_options(Relabel(chk, {"C10.d": "C02.e-forward"}))
     # a cached propagation is the one computed with the requested method and order
     c20._b_key_params(Relabel(chk, {"C20.b": "C02.d-cache"}), [x for x in c20._sites() if x.mod.name.endswith("services.system")])
+    # the requested span is integrated, however short it is compared with |t| (only exactly coinciding end points are a zero-length span), by
+    # the direction-wrapped system, on the requested grid: C10's propagation rules re-filed
+    c10._a_propagate(Relabel(chk, {"C10.a": "C02.c-propagate", "C10.b": "C02.c-propagate", "C10.d": "C02.c-propagate"}))
     return chk
 
 
